@@ -22,15 +22,27 @@ func init() {
 	register("C10", "other", []string{
 		"decides: one CommandFn call site in the package, in Dispatch, outside any loop, calling the final node's function with (ctx, a fresh view whose both fields are the final node, remaining); the parse cursor moves at exactly one site, on a fresh plain token equal to a command name of the cursor's own table, to that command's node; finalNode is written only by Parse from the parser's result; options are shared with children by pointer",
 		"'deepest command' is decided as 'the last cursor move wins'; user functions themselves are out of scope",
-	}, rC10Call, rC10Descent, rC10FinalNode, rC10CopyOptions, typestateRule("R10.6"), exactStopsRule("R10.7"), func(w *World, r *Report) { subRule(w, r, rC09Readers, "R10.8", "where the require-order stop point lies is decided per node at definition time (same obligations as C09 R09.3)", 3) })
+	}, rC10Call, rC10Descent, rC10FinalNode, rC10CopyOptions, typestateRule("R10.6"), exactStopsRule("R10.7"), func(w *World, r *Report) {
+		subRule(w, r, rC09Readers, "R10.8", "where the require-order stop point lies is decided per node at definition time (same obligations as C09 R09.3)", 3)
+	})
 	register("C11", "other", []string{
 		"decides: Dispatch: help test, then the required gate, then (and only on its nil edge) the CommandFn call; Parse: root gate under Parent == nil and not-help before any success return; the gate visits every option of the node and wraps ErrorParsing with %w; CheckRequired evaluated exhaustively over (IsRequired, Called); help edges write helpOutput to Writer and return ErrorHelpCalled without reaching the user function",
 		"help text content is C18",
-	}, rC11DispatchOrder, rC11Gate, rC11ParseGate, rC11HelpEdges, rC11CheckRequired, func(w *World, r *Report) { subRule(w, r, rC10CopyOptions, "R11.7", "the help option and its aliases reach every command level because HelpCommand copies the options to all children after defining them (same obligations as C10 R10.5)", 3) }, rC11RequiredVerbatim, rC11RunHelpNode, func(w *World, r *Report) { subRule(w, r, rC12Reachability, "R11.9", "a required option is satisfied by its environment variable at every level because the variable is applied at definition time (same obligations as C12 R12.2)", 2) }, func(w *World, r *Report) { subRule(w, r, rC12GetenvCallers, "R11.10", "same obligations as C12 R12.1", 3) })
+	}, rC11DispatchOrder, rC11Gate, rC11ParseGate, rC11HelpEdges, rC11CheckRequired, func(w *World, r *Report) {
+		subRule(w, r, rC10CopyOptions, "R11.7", "the help option and its aliases reach every command level because HelpCommand copies the options to all children after defining them (same obligations as C10 R10.5)", 3)
+	}, rC11RequiredVerbatim, rC11RunHelpNode, func(w *World, r *Report) {
+		subRule(w, r, rC12Reachability, "R11.9", "a required option is satisfied by its environment variable at every level because the variable is applied at definition time (same obligations as C12 R12.2)", 2)
+	}, func(w *World, r *Report) {
+		subRule(w, r, rC12GetenvCallers, "R11.10", "same obligations as C12 R12.1", 3)
+	})
 	register("C12", "other", []string{
 		"decides: os.Getenv is called only by the GetEnv modifier (variable name) and by Parse (two constants); no Getenv with a non-constant name and no ModifyFn call is reachable from Parse / Dispatch, ModifyFn values are invoked only inside the definers after the default was stored: the environment is applied at definition time, any command-line Save comes later; GetEnv handles the seven scalar kinds, saves the variable's text verbatim (bools: only the lower-cased literals true/false), does nothing for an empty value and marks the option called with the variable's name",
 		"Called after an *invalid* int/float text is an observation, not decided (the value stays default because Save stores nothing on its error path, C01 R01.5)",
-	}, rC12GetenvCallers, rC12Reachability, definersRule("R12.3"), rC12GetEnvBody, func(w *World, r *Report) { subRule(w, r, rC01TypedStore, "R12.5", "text valid for the type: the Save used by GetEnv stores exactly the strconv conversion and nothing on its error path (same obligations as C01 R01.4)", 8) }, func(w *World, r *Report) { subRule(w, r, rC01ErrDiscipline, "R12.6", "conversion errors never store (same obligations as C01 R01.5)", 10) })
+	}, rC12GetenvCallers, rC12Reachability, definersRule("R12.3"), rC12GetEnvBody, func(w *World, r *Report) {
+		subRule(w, r, rC01TypedStore, "R12.5", "text valid for the type: the Save used by GetEnv stores exactly the strconv conversion and nothing on its error path (same obligations as C01 R01.4)", 8)
+	}, func(w *World, r *Report) {
+		subRule(w, r, rC01ErrDiscipline, "R12.6", "conversion errors never store (same obligations as C01 R01.5)", 10)
+	})
 }
 
 // ------------------------------------------------------------------ C10
